@@ -52,6 +52,9 @@ func init() {
 	probes["O46"] = probeO46
 	probes["O50"] = probeO50
 	probes["O51"] = probeO51
+	probes["O52"] = probeO52
+	probes["O53"] = probeO53
+	probes["O54"] = probeO54
 	probes["O48"] = probeO48
 	probes["O49"] = probeO49
 	probes["O47"] = probeO47
@@ -738,5 +741,42 @@ func probeO51() (bool, string) {
 		fv.Set("x=1")
 		has, _ := fv.Config().Has("x", -1)
 		return !has || fv.Error() != nil, fmt.Sprint("x set: ", has, ", Error() = ", fv.Error())
+	})
+}
+
+func probeO52() (bool, string) {
+	return guard(func() (bool, string) {
+		c, _ := ucfg.NewFrom(map[string]interface{}{"l": "${m}", "m": "${n}", "n": []int{1, 2}}, ucfg.VarExp)
+		var t struct{ L []int }
+		err := c.Unpack(&t, ucfg.VarExp)
+		return err != nil || len(t.L) != 2, fmt.Sprint(err, " ", t.L)
+	})
+}
+
+type probeUV struct{ v int64 }
+
+func (u *probeUV) Unpack(i int64) error { u.v = i; return nil }
+func (u probeUV) Validate() error {
+	if u.v < 0 {
+		return fmt.Errorf("negative")
+	}
+	return nil
+}
+
+func probeO53() (bool, string) {
+	return guard(func() (bool, string) {
+		c, _ := ucfg.NewFrom(map[string]interface{}{"u": -1})
+		var t struct{ U probeUV }
+		err := c.Unpack(&t)
+		return err == nil, fmt.Sprint(err)
+	})
+}
+
+func probeO54() (bool, string) {
+	return guard(func() (bool, string) {
+		c, _ := ucfg.NewFrom(map[string]interface{}{"l": "${nope}"}, ucfg.VarExp, ucfg.MetaData(ucfg.Meta{Source: "a.yml"}))
+		var t struct{ L []int }
+		err := c.Unpack(&t, ucfg.VarExp)
+		return err == nil || !strings.Contains(err.Error(), "a.yml"), fmt.Sprint(err)
 	})
 }
